@@ -154,7 +154,8 @@ NumClause(e) ==
          ELSE "ok"
     [] e.op = "check" ->
          LET cl == C!PertClass(e.ty, e.pk, e.k, e.E) IN
-         IF e.raised /\ e.exc # "ValueError" THEN "wrong_exception"
+         IF e.Er # e.E /\ e.pk # "shear" THEN "harness_tolerances"   \* E = atol exponent; rtol differs only for shears
+         ELSE IF e.raised /\ e.exc # "ValueError" THEN "wrong_exception"
          ELSE IF cl = "accept" /\ e.raised THEN "raised_on_valid"
          ELSE IF cl = "reject" /\ ~e.raised THEN "accepted_invalid"
          ELSE "ok"
